@@ -13,6 +13,8 @@ Decided:
     (the delivered value must have been copied out before the buffer was re-posted).
  Q7 a completion is always seen: the free-running used/last-used indices are only compared for (in)equality and only
     advanced with wrapping arithmetic (C03.E5), so delivery does not stop after the 16-bit index wraps.
+ Q8 delivered length = the length the device recorded for *that* completion: on the Ok path of pop_used the id and the
+    length are read from the same used-ring slot (last-used & (SIZE-1)) and the refusal paths change nothing (C03.E1/E2).
  Q5 initial stocking: each constructor of a stocked queue adds every buffer in a loop and propagates failure.
 Not decided: "exactly once, count returns to SIZE" over histories.
 """
@@ -57,6 +59,10 @@ def run(F, R):
     q6_no_access_after_post(F, R, M, roles)
     from .C03 import counters_rule
     counters_rule(F, R, 'Q7')
+    from . import C03 as _c3
+    _lf = _c3.last_used_field(F, M, byrole['can_pop'][0]) if 'can_pop' in byrole else None
+    if _lf:
+        _c3.e1_e2_pop(F, RuleProxy(R, {'E1': 'Q8', 'E2': 'Q8'}), M, byrole['pop_used'][0], _lf)
     users = [n for n, a in F.adts.items() if a['kind'] == 'struct' and n not in (M.owning_adt,) and any(
         M.owning_adt in f['mentions'] for f in a['variants'][0]['fields'])]
     R.count('users', len(users) + 1)
